@@ -125,7 +125,7 @@ def main():
             if nviol <= 300:
                 R.violation({'kind': 'reference resolution deviates from RFC 3986 section 5.2', 'family': fam, 'base': b.decode('utf-8', 'replace'), 'reference': r.decode('utf-8', 'replace'),
                              'branch': branch, 'problems': pr[:4], 'implementation': io[:600], 'model': mo[:300], 'replay': "printf '%s\\n' | %s" % (line.replace('\t', '\\t'), harness)}, no_input=False)
-        if f[1] != mo:
+        if (f + [''])[1] != mo:
             diffs += 1
             if diffs <= 5:
                 R.extra.setdefault('correspondence_diffs', []).append({'case': line, 'base': b.decode('utf-8', 'replace'), 'reference': r.decode('utf-8', 'replace'), 'impl': io[:400], 'model': mo[:400]})
